@@ -9,5 +9,4 @@ cd /repo && go test -overlay $d/ov.json -vet=off -count=1 -timeout 300s -run "^$
 rc=$?
 # the repository's test scaffolding removes tracked fixture files on teardown: put them back
 git -C /repo ls-files -d -z | xargs -0 -r git -C /repo checkout -- 2>/dev/null
-git -C /repo clean -fdq -- masswallet api 2>/dev/null
 exit $rc
